@@ -6,6 +6,7 @@
 #include <cmath>
 #include <cstdarg>
 #include <cstdio>
+#include <cstdlib>
 
 namespace sim
 {
@@ -794,13 +795,15 @@ void axis(ld x, ld mn, ld size, u64 nb, ld eps, long long& k, long long& alt, bo
         k = -1;
         return;
     }
-    ld const q = (x - mn) / size;
+    ld const shifted = x - mn;
+    ld const q = shifted / size;
     if (!(q > -1e18L && q < 1e18L))
     {
         k = -1;
         return;
     }
-    ld const fl = std::floor(q);
+    // a tiny negative offset may underflow to -0 in the division: it is still left of the range
+    ld const fl = (shifted < 0) ? std::min<ld>(-1.0L, std::floor(q)) : std::floor(q);
     ld const near = std::round(q);
     k = (fl < 0 || fl >= static_cast<ld>(nb)) ? -1 : static_cast<long long>(fl);
     ld const dist = std::fabs(q - near);
@@ -901,6 +904,7 @@ void oracle_c11(Plan const& p, RunOut const& out, ChkptView const& v, Report& re
                     ld const val = round_to(p.nt, a.value * w);
                     if (!std::isfinite(val)) continue;
                     ++nadds;
+                    if (std::getenv("HEPSIM_DEBUG")) std::fprintf(stderr, "add dist %zu call %llu x=%.21Lg y=%.21Lg val=%.21Lg\n", d, (unsigned long long) r.idx, a.x, a.y, val);
 
                     long long kx, ax, ky = 0, ay = -2;
                     bool ambx = false, amby = false;
@@ -1495,6 +1499,23 @@ std::string compare_views(ChkptView const& a, ChkptView const& b, bool ignore_nz
 }
 
 // -------------------------------------------------------------------------------------------------
+
+// relative uncertainty of the cumulative relative errors when they are computed in the numeric type:
+// the variance of an iteration is a difference of two nearly equal numbers when the error is tiny
+ld rel_error_uncertainty(ChkptView const& v, int nt)
+{
+    ld worst = 1;
+    for (auto const& r : v.results)
+    {
+        if (r.nz == 0 || r.calls < 2) continue;
+        ld const N = r.calls;
+        ld const a = r.sumsq / N, b = (r.sum / N) * (r.sum / N);
+        ld const d = std::fabs(a - b);
+        ld const cond = (d > 0) ? (a + b) / d : 1e30L;
+        worst = std::max(worst, cond);
+    }
+    return 32 * eps_of(nt) * worst * (v.results.size() + 1);
+}
 
 std::vector<ld> reference_rel_errors(ChkptView const& v)
 {
